@@ -313,11 +313,18 @@ type PCS struct {
 	mu       sync.Mutex
 }
 
-// LatencyProfile returns a Latency function: a fixed table walked from a seed, so that consecutive
-// fetches differ (a later fetch may finish before an earlier one if they run concurrently).
+// LatencyProfile returns a Latency function: each URL gets a service time from a fixed table, chosen by the
+// seed (of two URLs fetched concurrently either may answer first, depending on the world).
 func LatencyProfile(seed int) func(Request, int) time.Duration {
 	table := []time.Duration{150 * time.Millisecond, time.Millisecond, 700 * time.Millisecond, 20 * time.Millisecond, 2500 * time.Millisecond, 11 * time.Second, 40 * time.Millisecond}
-	return func(_ Request, n int) time.Duration { return table[(seed+3*n)%len(table)] }
+	// by URL, not by arrival order: the arrival order of fetches issued concurrently is not ours to decide
+	return func(rq Request, _ int) time.Duration {
+		h := uint32(2166136261)
+		for i := 0; i < len(rq.URL); i++ {
+			h = (h ^ uint32(rq.URL[i])) * 16777619
+		}
+		return table[(uint32(seed)*7+h%1000)%uint32(len(table))]
+	}
 }
 
 // NewPCS returns an empty server.
